@@ -16,6 +16,8 @@ pub mod c07;
 #[cfg(kani)]
 pub mod c06;
 #[cfg(kani)]
+pub mod c03;
+#[cfg(kani)]
 pub mod c09;
 
 // written by `./check <id> --replay <file>` (Kani concrete playback of a recorded counterexample)
